@@ -1,0 +1,102 @@
+//! Verification hooks. Compiled only with `--features verif`; the shipped crate does not contain this module.
+//!
+//! * an output sink: while one is installed on the current thread, everything written through the
+//!   crate's `display!` channel lands in it instead of the process's standard output
+//! * a statement budget and a call-depth limit, so generated programs can neither hang a run nor
+//!   overflow the native stack
+#![allow(dead_code)]
+
+use std::cell::{Cell, RefCell};
+
+thread_local! {
+    static SINK: RefCell<Option<String>> = const { RefCell::new(None) };
+    static FUEL: Cell<Option<u64>> = const { Cell::new(None) };
+    static DEPTH: Cell<u32> = const { Cell::new(0) };
+    static MAX_DEPTH: Cell<u32> = const { Cell::new(u32::MAX) };
+}
+
+/// crate-local shadow of `print!`: `display!` expands to `print!`, which resolves to this macro
+/// inside the crate, so the output channel can be captured. `println!` is deliberately not shadowed.
+macro_rules! print {
+    ($($tee:tt)*) => {
+        $crate::verif::emit(format!($($tee)*))
+    };
+}
+
+pub fn emit(text: String) {
+    let leftover = SINK.with(|sink| match sink.borrow_mut().as_mut() {
+        Some(buf) => {
+            buf.push_str(&text);
+            None
+        }
+        None => Some(text),
+    });
+    if let Some(text) = leftover {
+        std::print!("{}", text);
+    }
+}
+
+/// install an empty sink on this thread
+pub fn sink_install() {
+    SINK.with(|sink| *sink.borrow_mut() = Some(String::new()));
+}
+
+/// remove the sink and return what it collected
+pub fn sink_take() -> Option<String> {
+    SINK.with(|sink| sink.borrow_mut().take())
+}
+
+/// `fuel`: number of statements that may still start; `max_depth`: nested user-procedure activations
+pub fn set_limits(fuel: Option<u64>, max_depth: u32) {
+    FUEL.with(|f| f.set(fuel));
+    MAX_DEPTH.with(|d| d.set(max_depth));
+    DEPTH.with(|d| d.set(0));
+}
+
+pub const FUEL_MESSAGE: &str = "verif: statement budget exhausted";
+pub const DEPTH_MESSAGE: &str = "verif: call depth limit reached";
+
+pub fn tick() -> bool {
+    FUEL.with(|f| match f.get() {
+        None => true,
+        Some(0) => false,
+        Some(n) => {
+            f.set(Some(n - 1));
+            true
+        }
+    })
+}
+
+pub struct DepthGuard;
+
+pub fn enter_call() -> Option<DepthGuard> {
+    let ok = DEPTH.with(|d| {
+        if d.get() >= MAX_DEPTH.with(|m| m.get()) {
+            false
+        } else {
+            d.set(d.get() + 1);
+            true
+        }
+    });
+    if ok {
+        Some(DepthGuard)
+    } else {
+        None
+    }
+}
+
+impl Drop for DepthGuard {
+    fn drop(&mut self) {
+        DEPTH.with(|d| d.set(d.get().saturating_sub(1)));
+    }
+}
+
+pub fn limit_error(message: &str) -> crate::interpreter::errors::RuntimeError {
+    crate::interpreter::errors::RuntimeError {
+        named_source: miette::NamedSource::new("verif", std::sync::Arc::<str>::from("")),
+        span: (0..0).into(),
+        message: message.to_string(),
+        help: String::new(),
+        label: String::new(),
+    }
+}
